@@ -40,4 +40,125 @@ theorem shapeTE (s : State) (t : Tid) (th : Thread) (fr : Frame) (rest : List Fr
     · simp [setThread, setSig, setPool, setFut, withFault, destroySig, ringTok_mk, ringTok_none, mkPool, Ring.init, cntLog_nil, lFresh, isDFin, *]
       try (simp [setFsState]; split <;> simp)
 
+/-! ### the ring part -/
+
+theorem cntLog_push_eq (c : Nat) (push : List Job) (pop : List (Nat × Option Job)) (d : Job)
+    (hlt : ∀ x ∈ pop.map Prod.fst, x < push.length) :
+    cntLog c (push ++ [d]) pop = cntLog c push pop + (if d = some c then 1 else 0) := by
+  simp only [cntLog, List.length_append, List.length_singleton, tsum]
+  have h1 : tsum push.length (fun x => if (push ++ [d])[x]? = some (some c) ∧ x ∉ pop.map Prod.fst then 1 else 0)
+      = tsum push.length (fun x => if push[x]? = some (some c) ∧ x ∉ pop.map Prod.fst then 1 else 0) := by
+    apply tsum_congr
+    intro u hu
+    simp only [List.getElem?_append_left hu]
+  rw [h1]
+  have h2 : (push ++ [d])[push.length]? = some d := by simp
+  have h3 : push.length ∉ pop.map Prod.fst := fun h => Nat.lt_irrefl _ (hlt _ h)
+  rw [h2]
+  by_cases hd : d = some c
+  · simp [hd, h3]
+  · have : ¬ (some d = some (some c) ∧ push.length ∉ pop.map Prod.fst) := by
+      intro h; apply hd; injection h.1
+    simp only [this, if_false, hd]
+
+theorem wS_ret_push_eq {c : Nat} {rj d : Job} {rest : List Frame} {pc : RingPc Job} {b : Bool}
+    (hlink : linkOk (.ring pc :: rest)) (hsl : slOk (.ring pc :: rest)) (hd : pushPay pc = some d) :
+    wS c b rj rest = (if b = false ∧ d = some c then 1 else 0) + base c rj rest := by
+  cases rest with
+  | nil =>
+    rcases d with _ | c'
+    · simp
+    · have := hsl.2 c' hd; simp at this
+  | cons g r2 =>
+    have hc : compat pc g := hlink
+    have hp := pushPay_not_pop hd
+    simp only [wS_cons, base_cons]
+    rcases d with _ | c'
+    · cases g <;> simp only [compat, hd, hp, Option.some.injEq, Bool.false_eq_true] at hc <;> simp [topW, fw] <;> grind
+    · rcases hsl.2 c' hd with h | h <;> simp at h <;> subst h <;> simp [topW, fw]
+
+theorem wS_ret_pop_eq {c : Nat} {rj j' : Job} {rest : List Frame} {pc : RingPc Job} {b : Bool}
+    (hsl : slOk (.ring pc :: rest)) (hpop : isPop pc = true) (hnwd : NoWD rest) :
+    wS c b j' rest = (if b = true ∧ j' = some c then 1 else 0) + base c rj rest := by
+  have h := hsl.1 hpop
+  cases rest with
+  | nil => simp at h
+  | cons g r2 =>
+    obtain ⟨hg, hr2⟩ := noWD_cons.mp hnwd
+    simp only [List.head?_cons, Option.any_some] at h
+    simp only [wS_cons, base_cons, base_rj (rj := rj) (rj' := j') hr2]
+    cases g <;> simp [isWChk] at h <;> simp [topW, fw]
+
+theorem ringStep_tok_eq (c : Nat) (r : Ring Job) (pc : RingPc Job) (rj : Job) (rest : List Frame)
+    (hlink : linkOk (.ring pc :: rest)) (hsl : slOk (.ring pc :: rest)) (hnwd : NoWD rest)
+    (hF : ∀ x, pc = .popData x → (r.slots (x % r.cap)).data = r.pushLog[x]? ∧ x < r.pushLog.length ∧
+      x ∉ r.popLog.map Prod.fst)
+    (hlog : ∀ x ∈ r.popLog.map Prod.fst, x < r.pushLog.length) :
+    tokRes c rj rest (ringStep r pc).2 + cntLog c (ringStep r pc).1.pushLog (ringStep r pc).1.popLog =
+      pcW c pc + base c rj rest + cntLog c r.pushLog r.popLog := by
+  cases pc with
+  | pushRead d => simp [ringStep, tokRes, pcW]
+  | pushChk d x =>
+    simp only [ringStep]
+    split
+    · have := wS_ret_push_eq (c := c) (rj := rj) (b := false) hlink hsl rfl
+      simp [tokRes, pcW] at this ⊢; omega
+    · simp [tokRes, pcW]
+  | pushCas d x =>
+    simp only [ringStep]
+    split
+    · have := cntLog_push_eq c r.pushLog r.popLog d hlog
+      simp [tokRes, pcW]; omega
+    · simp [tokRes, pcW]
+  | pushData d x => simp [ringStep, tokRes, pcW, Ring.setSlot]
+  | pushPub d x =>
+    have := wS_ret_push_eq (c := c) (rj := rj) (b := true) hlink hsl rfl
+    simp [ringStep, tokRes, pcW, Ring.setSlot] at this ⊢; omega
+  | popRead => simp [ringStep, tokRes, pcW]
+  | popChk x =>
+    simp only [ringStep]
+    split
+    · have := wS_ret_pop_eq (c := c) (rj := rj) (j' := rj) (b := false) hsl rfl hnwd
+      simp [tokRes, pcW] at this ⊢; omega
+    · simp [tokRes, pcW]
+  | popCas x =>
+    simp only [ringStep]
+    split <;> simp [tokRes, pcW]
+  | popData x =>
+    obtain ⟨h1, h2, h3⟩ := hF x rfl
+    have := cntLog_pop c r.pushLog r.popLog x _ h2 h1 h3
+    simp [ringStep, tokRes, pcW, Ring.setSlot]; omega
+  | popRel x d =>
+    rcases d with _ | jj
+    · have := wS_ret_pop_eq (c := c) (rj := rj) (j' := none) (b := true) hsl rfl hnwd
+      simp [ringStep, tokRes, pcW, Ring.setSlot] at this ⊢; omega
+    · have := wS_ret_pop_eq (c := c) (rj := rj) (j' := jj) (b := true) hsl rfl hnwd
+      simp [ringStep, tokRes, pcW, Ring.setSlot] at this ⊢; omega
+
+/-- token conservation of a `push`/`pop` micro-step -/
+theorem shapeRE {s : State} {t : Tid} {th : Thread} {pc : RingPc Job} {rest : List Frame} {p : Pool}
+    (hp : s.pool = some p) (hth : s.threads t = some th) (hst : th.stack = .ring pc :: rest)
+    (hok : StackOk (.ring pc :: rest)) (hsl : slOk (.ring pc :: rest))
+    (hF : ∀ x, pc = .popData x → (p.ring.slots (x % p.ring.cap)).data = p.ring.pushLog[x]? ∧
+      x < p.ring.pushLog.length ∧ x ∉ p.ring.popLog.map Prod.fst)
+    (hlog : ∀ x ∈ p.ring.popLog.map Prod.fst, x < p.ring.pushLog.length) :
+    ∀ c th', (stepFrame s t th (.ring pc)).1.threads t = some th' →
+      weight c th' + ringTok c (stepFrame s t th (.ring pc)).1.pool = weight c th + ringTok c s.pool := by
+  obtain ⟨b, j, k, l, flt, hs', hcase⟩ := ring_step_some (t := t) hp hst
+  rw [hs']
+  have hnwd := (stackOk_ring hok).2
+  intro c th' h
+  simp [setThread, upd_same] at h
+  subst h
+  have key := ringStep_tok_eq c p.ring pc th.retJob rest hok.link hsl hnwd hF hlog
+  simp only [weight, hst, wS_cons, setThread, setPool, ringTok_mk, hp]
+  have htw : topW c th.retB th.retJob (.ring pc) = pcW c pc := rfl
+  rw [htw]
+  rcases hcase with ⟨pc', h1, rfl, rfl, rfl, rfl⟩ | ⟨ok, h1, rfl, rfl, rfl, rfl⟩ | ⟨h1, rfl, rfl, rfl, rfl⟩ |
+    ⟨jj, h1, rfl, rfl, rfl, rfl⟩ | ⟨h1, rfl, rfl, rfl, rfl⟩
+  all_goals
+    rw [h1] at key
+    simp only [tokRes] at key
+    first | exact key | (simp only [wS_cons]; exact key)
+
 end Nstd.Future.LJ
